@@ -26,7 +26,7 @@ MANIFEST = {
     'level_text': ('Bounded, solver-driven shape exploration: a symbolic stream is walked by the FM-94 reference so that every combination of '
                    'replication factors, bitmap bits and attribute counts within the bound becomes one path; the solver produces the data section '
                    'of each shape (content pinned to a tricky-value menu) and the real decoder, wiring, four renderers, three converters and the '
-                   'encoder run on the assembled message; the conversions must reproduce the flat JSON, the re-encoding the original bytes, and '
+                   'encoder run on the assembled message; the conversions must reproduce the flat JSON, the re-encoded bytes must carry the same flat JSON again, and '
                    'the hierarchical view must hold every flat index exactly once in flat order.'),
     'level_note': 'Trusted: CrossHair/z3 (path enumeration and model construction), bitstring model, the independent message builder.',
     'technique': 'CrossHair/z3 path-exhaustive enumeration of message shapes over a symbolic stream; the real rendering/conversion code is executed on the solver-built message of every shape',
@@ -38,11 +38,12 @@ def jobs(tier, seed):
     thorough = tier == 'thorough'
     names = [f['name'] for f in families.VALUE_FAMILIES + families.BITMAP_FAMILIES + families.ATTRIBUTE_FAMILIES] + sorted(EXTRA)
     for name in names:
-        J.append(Job('shapes:' + name, 'harness.c09', 'h_shapes', {'family': name, 'phases': 6 if thorough else 3,
-                                                                   'max_factor': 3 if thorough else 2},
+        heavy = name in ('bm-redefine', 'bm-chain-4', 'bm-nested-rep')   # many bitmap bits: one content phase in quick
+        J.append(Job('shapes:' + name, 'harness.c09', 'h_shapes', {'family': name, 'phases': 6 if thorough else (1 if heavy else 3),
+                                                                   'max_factor': 3 if thorough else (1 if heavy else 2)},
                      timeout=3000 if thorough else 600, witnesses=['shape']))
     for name in ('delayed', 'qa222', 'op204', 'np221', 'zero-rep', 'attr-on-factor') + (tuple(names[:20]) if thorough else ()):
-        J.append(Job('shapes:2subsets:' + name, 'harness.c09', 'h_shapes', {'family': name, 'n_subsets': 2, 'phases': 2, 'max_factor': 1, 'nbits': 4096},
+        J.append(Job('shapes:2subsets:' + name, 'harness.c09', 'h_shapes', {'family': name, 'n_subsets': 2, 'phases': 2 if thorough else 1, 'max_factor': 1, 'nbits': 4096},
                      timeout=1200, witnesses=['shape'], core=False))
     for y in ((1, 2, 3, 4) if thorough else (1, 2, 3)):
         J.append(Job('strings:205:%d' % y, 'harness.c09', 'h_strings', {'nbytes': y}, timeout=3000 if thorough else 900, witnesses=['string']))
